@@ -139,11 +139,13 @@ struct Tracked {
   T v;
   Tracked() noexcept : v() { mc_track_ctor(this, 0); }
   Tracked(const T& x) noexcept : v(x) { mc_track_ctor(this, (long)x); }
-  Tracked(const Tracked& o) noexcept : v(o.v) {
+  // copying / moving an element is plain code that containers run next to their release stores: a
+  // scheduling point before the source is read lets another thread get in between (opt.track_points)
+  Tracked(const Tracked& o) noexcept : v((mc_track_point(), o.v)) {
     mc_track_use(&o);
     mc_track_ctor(this, (long)v);
   }
-  Tracked(Tracked&& o) noexcept : v(o.v) {
+  Tracked(Tracked&& o) noexcept : v((mc_track_point(), o.v)) {
     mc_track_use(&o);
     mc_track_ctor(this, (long)v);
   }
